@@ -216,49 +216,7 @@ def run(rep: Report, tier: str) -> None:
     resort = any(isinstance(s, ast.Expr) and unparse(s.value) == f"{res_name}._force_sort()" for s in body)
     ret = any(isinstance(s, ast.Return) and unparse(s.value) == res_name for s in body)
     rep.check(resort and ret, rc, dup.module, dup.qualname, "duplicate(): re-sorts the copy and returns it", "duplicate() no longer forces a re-sort of the copy (window-dependent fields would be stale) or does not return the copy", loc(dup.node))
-    base = prog.cls("rp2.abstract_entry_set", "AbstractEntrySet")
-    n_over = 0
-    for ci in prog.subclasses(base):
-        so = ci.methods.get("_sort_entries")
-        if so is None:
-            continue
-        n_over += 1
-        rep.analysed(so)
-        window_dep = any(isinstance(n, ast.Attribute) and n.attr in ("to_date", "from_date", "_to_date", "_from_date") for n in ast.walk(so.node))
-        if not window_dep:
-            rep.ok(rc, f"{ci.name}._sort_entries does not depend on the window", "in-place work on shared containers is window-independent")
-            continue
-        # containers mutated in place
-        mutated: Dict[str, ast.AST] = {}
-        for n in ast.walk(so.node):
-            tgt = None
-            if isinstance(n, (ast.Assign, ast.AugAssign)):
-                for t in n.targets if isinstance(n, ast.Assign) else [n.target]:
-                    if isinstance(t, ast.Subscript):
-                        tgt = t.value
-            elif isinstance(n, ast.Delete):
-                for t in n.targets:
-                    if isinstance(t, ast.Subscript):
-                        tgt = t.value
-            elif isinstance(n, ast.Call) and isinstance(n.func, ast.Attribute) and n.func.attr in ("clear", "append", "update", "pop", "setdefault", "add", "extend", "remove", "insert", "popitem"):
-                tgt = n.func.value
-            if isinstance(tgt, ast.Attribute) and isinstance(tgt.value, ast.Name) and tgt.value.id == "self":
-                mutated.setdefault(tgt.attr, n)
-        for attr, site in sorted(mutated.items()):
-            rebinds = [s for s in so.node.body if isinstance(s, (ast.Assign, ast.AnnAssign)) and any(isinstance(t, ast.Attribute) and isinstance(t.value, ast.Name) and t.value.id == "self" and t.attr == attr for t in (s.targets if isinstance(s, ast.Assign) else [s.target])) and isinstance(s.value, (ast.Dict, ast.DictComp, ast.List, ast.ListComp, ast.Set, ast.SetComp, ast.Call))]
-            fresh = bool(rebinds) and min(s.lineno for s in rebinds) < site.lineno
-            rep.check(
-                fresh,
-                rc,
-                so.module,
-                so.qualname,
-                f"{ci.name}.{attr} is rebound to a fresh container before it is filled",
-                f"{ci.name}._sort_entries fills self.{attr} in place ({short(site, 70)}) without first rebinding it to a fresh container at the top of the method: duplicate() makes shallow copies, "
-                "so the filtered and the unfiltered set share the object and whichever sorts last overwrites the other's window-dependent data (fraction counts shown with -t would include history after the to-date)",
-                loc(site),
-            )
-    if n_over < 2:
-        raise AnalysisError("expected _sort_entries in AbstractEntrySet and GainLossSet")
+    check_per_copy_state(rep, rc)
     # filtered sets are produced only by duplicate() with the owner's bounds
     cd = prog.cls("rp2.computed_data", "ComputedData")
     defs = m.field_defs(cd)
@@ -321,6 +279,54 @@ def run(rep: Report, tier: str) -> None:
                 rep.check(ok, rd, init.module, init.qualname, f"{key.split('.')[-1].lstrip(':')} receives to_date and unfiltered input only", f"{short(n, 100)} receives {dict((k, show(v)[:60]) for k, v in kw.items())}; expected only the to-date and unfiltered input (all history up to the to-date)", loc(n))
     ppu = prog.func("rp2.computed_data", "ComputedData._compute_price_per_unit")
     rep.check("from_date" not in ppu.param_names, rd, ppu.module, ppu.qualname, "average price takes no from-date", "average price now takes a from-date", loc(ppu.node))
+
+
+def check_per_copy_state(rep: Report, rc: str) -> None:
+    m = model()
+    prog = m.prog
+    base = prog.cls("rp2.abstract_entry_set", "AbstractEntrySet")
+    n_over = 0
+    for ci in prog.subclasses(base):
+        so = ci.methods.get("_sort_entries")
+        if so is None:
+            continue
+        n_over += 1
+        rep.analysed(so)
+        window_dep = any(isinstance(n, ast.Attribute) and n.attr in ("to_date", "from_date", "_to_date", "_from_date") for n in ast.walk(so.node))
+        if not window_dep:
+            rep.ok(rc, f"{ci.name}._sort_entries does not depend on the window", "in-place work on shared containers is window-independent")
+            continue
+        # containers mutated in place
+        mutated: Dict[str, ast.AST] = {}
+        for n in ast.walk(so.node):
+            tgt = None
+            if isinstance(n, (ast.Assign, ast.AugAssign)):
+                for t in n.targets if isinstance(n, ast.Assign) else [n.target]:
+                    if isinstance(t, ast.Subscript):
+                        tgt = t.value
+            elif isinstance(n, ast.Delete):
+                for t in n.targets:
+                    if isinstance(t, ast.Subscript):
+                        tgt = t.value
+            elif isinstance(n, ast.Call) and isinstance(n.func, ast.Attribute) and n.func.attr in ("clear", "append", "update", "pop", "setdefault", "add", "extend", "remove", "insert", "popitem"):
+                tgt = n.func.value
+            if isinstance(tgt, ast.Attribute) and isinstance(tgt.value, ast.Name) and tgt.value.id == "self":
+                mutated.setdefault(tgt.attr, n)
+        for attr, site in sorted(mutated.items()):
+            rebinds = [s for s in so.node.body if isinstance(s, (ast.Assign, ast.AnnAssign)) and any(isinstance(t, ast.Attribute) and isinstance(t.value, ast.Name) and t.value.id == "self" and t.attr == attr for t in (s.targets if isinstance(s, ast.Assign) else [s.target])) and isinstance(s.value, (ast.Dict, ast.DictComp, ast.List, ast.ListComp, ast.Set, ast.SetComp, ast.Call))]
+            fresh = bool(rebinds) and min(s.lineno for s in rebinds) < site.lineno
+            rep.check(
+                fresh,
+                rc,
+                so.module,
+                so.qualname,
+                f"{ci.name}.{attr} is rebound to a fresh container before it is filled",
+                f"{ci.name}._sort_entries fills self.{attr} in place ({short(site, 70)}) without first rebinding it to a fresh container at the top of the method: duplicate() makes shallow copies, "
+                "so the filtered and the unfiltered set share the object and whichever sorts last overwrites the other's window-dependent data (fraction counts shown with -t would include history after the to-date)",
+                loc(site),
+            )
+    if n_over < 2:
+        raise AnalysisError("expected _sort_entries in AbstractEntrySet and GainLossSet")
 
 
 def _is_computed_data_arg(node: ast.Attribute) -> bool:
